@@ -122,7 +122,8 @@ def run(S):
                         j += 1
                         cc.append(cx.get('break_suppressed') is True)
                         after_hash = i > 0 and combo[i - 1] == 'hash'
-                        cc.append(i_eq(cx.get('mode').disc, 1 if after_hash else c0.get('mode').disc, 64))
+                        # after a hash the expression is code; whether continued or not makes no difference here (breaks are suppressed)
+                        cc.append(b_or(i_eq(cx.get('mode').disc, 1, 64), i_eq(cx.get('mode').disc, 2, 64)) if after_hash else i_eq(cx.get('mode').disc, c0.get('mode').disc, 64))
                 ctx.must_hold(b_and(*cc), 'math-expression-context-wrong', describe)
                 if 'space' in combo:
                     ctx.witness('math with whitespace')
